@@ -3,51 +3,85 @@
 (* Trace validation for C18.  One segment = one LowNodeLoad plugin         *)
 (* instance (its anomaly detectors live as long as the segment) driven     *)
 (* through several successive Balance rounds:                              *)
-(*   reset  cfg (thresholds in hundredths of a percent, deviation flag,    *)
-(*          anomaly, numNodes), names (the node names of the pool)         *)
-(*   round  the inputs of one Balance call: nodes (capacity, fresh metric?,*)
-(*          unschedulable?, system usage) and pods (node, reported usage,  *)
-(*          prod?, passes the evictor's filter?, has a pod metric?)        *)
+(*   reset  cfg = [numNodes, pools : sequence of node pools, each with its *)
+(*          selector (sel), thresholds in hundredths of a percent,         *)
+(*          deviation flag and anomaly setting], names (all node names)    *)
+(*   round  the inputs of one Balance call: nodes (labels, capacity, fresh *)
+(*          metric?, unschedulable?, system usage) and pods (node,         *)
+(*          reported usage, prod?, passes the evictor's filter?, has a pod *)
+(*          metric?)                                                       *)
 (*   evict  one Evict(pod) call received by the recording evictor, in      *)
 (*          order, with the result the evictor returned (ok)               *)
 (*   end    Balance returned; obs = the recorder's count / list of the     *)
 (*          pods handed to Evict in this round                             *)
-(* TLC recomputes the usage / threshold table from the round inputs and    *)
-(* accepts an evict event only if the property-level predicates of         *)
-(* Rebalance.tla hold for it (Allowed).  Nothing else is demanded: any     *)
-(* order, any subset, any number of rounds without evictions is accepted.  *)
+(* TLC recomputes one usage / threshold table per pool from the round      *)
+(* inputs and accepts an evict event only if the property-level predicates *)
+(* of Rebalance.tla hold for it under SOME pool that can be at work        *)
+(* (AllowedP).  Nothing else is demanded: any order, any subset, any       *)
+(* number of rounds without evictions is accepted.                         *)
+(*                                                                         *)
+(* Which pool an Evict call belongs to is not observable.  The pools are   *)
+(* processed in order, so the calls of a round are attributed to pools     *)
+(* monotonically: cur = the pool the previous call was attributed to; a    *)
+(* call is attributed to the FIRST pool k >= cur under which it is         *)
+(* allowed.  (Greedy is complete: the only thing an attribution changes    *)
+(* for later calls is whose headroom is charged, and attributing to an     *)
+(* earlier pool leaves every later pool's headroom untouched.)             *)
 (***************************************************************************)
 EXTENDS Rebalance, TraceCommon, SequencesExt
 
-VARIABLES cfg, rd, tab, sN, sP, calls, open
-vars == <<cfg, rd, tab, sN, sP, calls, open>>
+VARIABLES cfg, rd, tabs, sN, sP, calls, cur, open
+vars == <<cfg, rd, tabs, sN, sP, calls, cur, open>>
 
-CfgOf(e) == [dev |-> e.cfg.dev, low |-> e.cfg.low, high |-> e.cfg.high, plow |-> e.cfg.plow, phigh |-> e.cfg.phigh,
-             anomaly |-> e.cfg.anomaly, numNodes |-> e.cfg.numNodes]
+PoolOf(e, k) == LET q == e.cfg.pools[k] IN
+  [sel |-> [nil |-> q.sel.nil, labels |-> q.sel.labels],
+   dev |-> q.dev, low |-> q.low, high |-> q.high, plow |-> q.plow, phigh |-> q.phigh,
+   anomaly |-> q.anomaly, numNodes |-> e.cfg.numNodes]         \* NumberOfNodes is one setting for all pools
+CfgOf(e) == [k \in 1..Len(e.cfg.pools) |-> PoolOf(e, k)]
+NP == Len(cfg)
 
 Init(e) == /\ cfg = CfgOf(e)
            /\ rd = [nodes |-> <<>>, pods |-> <<>>]
-           /\ tab = <<>>
-           /\ sN = [n \in ToSet(e.names) |-> 0]
-           /\ sP = [n \in ToSet(e.names) |-> 0]
+           /\ tabs = <<>>
+           /\ sN = [k \in 1..Len(e.cfg.pools) |-> [n \in ToSet(e.names) |-> 0]]
+           /\ sP = [k \in 1..Len(e.cfg.pools) |-> [n \in ToSet(e.names) |-> 0]]
            /\ calls = <<>>
+           /\ cur = 1
            /\ open = FALSE
 
+\* the streaks are kept per pool: "above ITS high threshold" is the threshold of the pool that evicts; a round in which the
+\* pool does not select the node (or the node is not measured) neither counts nor interrupts
 TRound == /\ IsEvent("round")
           /\ ~open
-          /\ DOMAIN Ev.nodes = DOMAIN sN
-          /\ \E R \in {[nodes |-> Ev.nodes, pods |-> Ev.pods]} : \E T \in {Table(cfg, R)} :
-               /\ rd' = R /\ tab' = T
-               /\ sN' = NextStreak(T, R, sN, FALSE)
-               /\ sP' = NextStreak(T, R, sP, TRUE)
-          /\ calls' = <<>> /\ open' = TRUE
+          /\ DOMAIN Ev.nodes = DOMAIN sN[1]
+          /\ \E R \in {[nodes |-> Ev.nodes, pods |-> Ev.pods]} : \E TS \in {[k \in 1..NP |-> PoolTable(cfg[k], R)]} :
+               /\ rd' = R /\ tabs' = TS
+               /\ sN' = [k \in 1..NP |-> NextStreak(TS[k], R, sN[k], FALSE)]
+               /\ sP' = [k \in 1..NP |-> NextStreak(TS[k], R, sP[k], TRUE)]
+          /\ calls' = <<>> /\ cur' = 1 /\ open' = TRUE
           /\ UNCHANGED cfg
+
+PoolCalls(k) == SelectSeq(calls, LAMBDA c : c.pool = k)
+AllowedIn(k, p) == AllowedP(cfg[k], tabs[k], rd, sN[k], sP[k], calls, PoolCalls(k), p)
+\* was this pod's node already relieved by an earlier pool of this round, and as which kind of source ("" = no)?
+\* (diagnostics only)
+Again(k, p) == IF p \notin DOMAIN rd.pods THEN ""
+               ELSE LET n == rd.pods[p].node
+                        J == {calls[i].pool : i \in FromIdx(rd, calls, n)} \cap 1..(k - 1)
+                    IN  IF J = {} THEN ""
+                        ELSE LET j == CHOOSE x \in J : \A y \in J : x <= y
+                             IN  IF n \in Measured(tabs[j]) THEN Kind(tabs[j], n) ELSE "?"
+WhyIn(k, p) == [pool |-> k, past |-> k < cur, selNil |-> cfg[k].sel.nil, again |-> Again(k, p),
+                why |-> WhyP(cfg[k], tabs[k], rd, sN[k], sP[k], calls, PoolCalls(k), p)]
 
 TEvict == /\ IsEvent("evict")
           /\ open
-          /\ Expect(Allowed(cfg, tab, rd, sN, sP, calls, Ev.pod), Why(cfg, tab, rd, sN, sP, calls, Ev.pod))
-          /\ calls' = Append(calls, [pod |-> Ev.pod, ok |-> Ev.ok])
-          /\ UNCHANGED <<cfg, rd, tab, sN, sP, open>>
+          /\ \E p \in {Ev.pod} : \E OKs \in {{k \in cur..NP : AllowedIn(k, p)}} :
+               /\ Expect(OKs # {}, [cursor |-> cur, pools |-> [k \in 1..NP |-> WhyIn(k, p)]])
+               /\ \E k \in {IF OKs = {} THEN cur ELSE CHOOSE x \in OKs : \A y \in OKs : x <= y} :
+                    /\ calls' = Append(calls, [pod |-> p, ok |-> Ev.ok, pool |-> k])
+                    /\ cur' = k
+          /\ UNCHANGED <<cfg, rd, tabs, sN, sP, open>>
 
 \* the recorder's own summary of the round must agree with the evict events (binds the count and the order)
 TEnd == /\ IsEvent("end")
@@ -56,8 +90,8 @@ TEnd == /\ IsEvent("end")
                   /\ Len(Ev.obs.pods) = Len(calls)
                   /\ \A i \in 1..Len(calls) : Ev.obs.pods[i] = calls[i].pod,
                   [calls |-> Len(calls), pods |-> [i \in 1..Len(calls) |-> calls[i].pod]])
-        /\ open' = FALSE /\ calls' = <<>>
-        /\ UNCHANGED <<cfg, rd, tab, sN, sP>>
+        /\ open' = FALSE /\ calls' = <<>> /\ cur' = 1
+        /\ UNCHANGED <<cfg, rd, tabs, sN, sP>>
 
 TraceInit == \E i \in Starts : TraceStart(i) /\ Init(Trace[i])
 TraceNext == TRound \/ TEvict \/ TEnd \/ (SegDone /\ UNCHANGED vars)
